@@ -17,6 +17,14 @@ def showFrs (l : List Nat) : String := "[" ++ ",".intercalate (l.map fr) ++ "]"
 
 def parseList (s : String) : Option (List Nat) :=
   if s == "-" then some [] else
+  -- `gen:<n>:<seed>` (hex): the n consecutive values seed+1, …, seed+n
+  if s.startsWith "gen:" then
+    match (s.drop 4).toString.splitOn ":" with
+    | [n, sd] => match parseHexNat n, parseHexNat sd with
+      | some n, some sd => some ((List.range n).map (fun i => sd + i + 1))
+      | _, _ => none
+    | _ => none
+  else
   (s.splitOn ",").foldr (fun w acc => match parseHexNat w, acc with
     | some v, some l => some (v :: l)
     | _, _ => none) (some [])
@@ -101,6 +109,18 @@ def verdict (o : Outcome Bool) : String :=
 def stepPure (e : PEnv) (w : List String) : Option String :=
   match w with
   | ["ser_fr", v] => (parseHexNat v).map (fun v => showBytes (if e.spec then Spec.encFr v else frToBytesLe v))
+  -- long generated vectors through the vector codecs: decode (encode l) = (l, 8 + size) for every l (C10_vecFr_roundtrip,
+  -- C10_vecU8_roundtrip), so the summary is computed on l itself
+  | ["bigvec", kind, n, sd] => match parseHexNat n, parseHexNat sd with
+    | some n, some sd =>
+      let l := (List.range n).map (fun i => if kind == "fr" then (sd + i + 1) % P else (sd + i + 1) % 256)
+      let sum := l.foldl (· + ·) 0
+      let sh := fun (v : Nat) => "0x" ++ String.ofList (Nat.toDigits 16 v)
+      some (if kind == "fr" then s!"ok len={n} read={8 + 32 * n} first={match l.head? with | some v => fr v | none => "-"} last={match l.getLast? with | some v => fr v | none => "-"} sum={fr (sum % P)}"
+            else s!"ok len={n} read={8 + n} first={match l.head? with | some v => sh v | none => "-"} last={match l.getLast? with | some v => sh v | none => "-"} sum={sh sum}")
+    | _, _ => none
+  | ["is_canonical", b] => (parseHexBytes b).map (fun b =>
+      if decide (32 ≤ b.length) && decide (leNat (b.take 32) < P) then "true" else "false")
   | ["de_fr", b] => (parseHexBytes b).map (fun b =>
       if e.spec then (if b.length < 32 then "panic" else s!"{fr (Spec.decFr b 0)} 32")
       else out (bytesLeToFr b) (fun r => s!"{fr r.1} {r.2}"))
@@ -148,6 +168,12 @@ def stepPure (e : PEnv) (w : List String) : Option String :=
   | ["de_witness", b] => (parseHexBytes b).map (fun b =>
       if e.spec then (match Spec.decWitness b with | some wi => s!"ok {showWitness wi} read={b.length}" | none => "err")
       else out (deserializeWitness b) (fun r => s!"ok {showWitness r.1} read={r.2}"))
+  | ["rln_wit_bigint", b] => (parseHexBytes b).map (fun b =>
+      if e.spec then (match Spec.decWitness b with | some wi => s!"ok {showWitness wi} read={b.length}" | none => "err")
+      else out (deserializeWitness b) (fun r => s!"ok {showWitness r.1} read={r.2}"))
+  | ["rln_wit_json", b] => (parseHexBytes b).map (fun b =>
+      if e.spec then (match Spec.decWitness b with | some wi => s!"ok {showWitness wi} same=true" | none => "err")
+      else out (deserializeWitness b) (fun r => s!"ok {showWitness r.1} same=true"))
   | ["json_rt", b] => (parseHexBytes b).map (fun b =>
       if e.spec then (match Spec.decWitness b with | some wi => s!"ok {showWitness wi} same=true" | none => "err")
       else out (deserializeWitness b) (fun r => s!"ok {showWitness r.1} same=true"))
